@@ -240,7 +240,13 @@ def eval_case_at(law: Law, shape, pt) -> tuple[Optional[bool], list]:
     for r in list(case.residuals) + list(case.assume):
         free |= sp.sympify(r).free_symbols
     rng = random.Random(f"free|{pt.get('__seed__', 0)}")
-    sub = {s: sp.Rational(rng.randint(1, 9), rng.randint(2, 7)) for s in sorted(free, key=str)}
+    # signed values unless the symbol is declared positive / non-negative (domain assumptions of the clause filter the rest)
+    sub = {}
+    for s in sorted(free, key=str):
+        v = sp.Rational(rng.randint(1, 9), rng.randint(2, 7))
+        if not (s.is_positive or s.is_nonnegative) and rng.random() < 0.5:
+            v = -v
+        sub[s] = v
     for a in case.assume:
         h = _holds(a.subs(sub))
         if h is not True:
